@@ -140,7 +140,21 @@ def z3bool(v):
     raise OutOfSubset("not a boolean: %r" % (v,))
 
 
+_HQ_CACHE = {}
+
+
 def _has_quantifier(e):
+    k = e.get_id()
+    if k in _HQ_CACHE:
+        return _HQ_CACHE[k]
+    r = _has_quantifier_uncached(e)
+    if len(_HQ_CACHE) > 200000:
+        _HQ_CACHE.clear()
+    _HQ_CACHE[k] = r
+    return r
+
+
+def _has_quantifier_uncached(e):
     stack, seen = [e], set()
     while stack:
         t = stack.pop()
@@ -251,17 +265,38 @@ class Path(object):
         self.events.append(ev)
 
 
-def explore(run, max_paths=4000, prune=True):
-    """Run ``run(path)`` for every decision script.  Returns the list of finished paths."""
+def explore(run, max_paths=4000, prune=True, shard=None):
+    """Run ``run(path)`` for every decision script.  Returns the list of finished paths.
+
+    ``shard=(k, n)``: every shard runs the same (deterministic) first paths until at least ``n`` subtrees
+    are pending, then explores only the pending subtrees with index ≡ k (mod n); the shared first paths
+    are reported round-robin (path i by shard i mod n).  The union over the shards is exactly the unsharded exploration."""
     stack = [[]]
     done = []
-    while stack:
-        script = stack.pop()
+    count = 0
+
+    def run_one(script):
         p = Path(script, prune=prune)
         try:
             run(p)
         except PathEnd:
             pass
+        return p
+
+    if shard is not None and shard[1] > 1:
+        k, n = shard
+        while stack and len(stack) < n:
+            script = stack.pop(0)          # breadth first, to widen the frontier quickly
+            p = run_one(script)
+            if count % n == k:
+                done.append(p)
+            count += 1
+            for idx in reversed(p.branch_points):
+                stack.append(p.decisions[:idx] + [False])
+        stack = [s_ for i, s_ in enumerate(stack) if i % n == k]
+    while stack:
+        script = stack.pop()
+        p = run_one(script)
         done.append(p)
         for idx in reversed(p.branch_points):
             stack.append(p.decisions[:idx] + [False])
